@@ -289,6 +289,9 @@ class Check:
             case_ops = [o for o in ops[a:first + 1] if not o.startswith("#")]
             shrunk = case_ops
             if hbin and exe:
+                # a case in which the implementation's own oracle failed is shrunk with "the oracle still fails" as
+                # the predicate, so that a concrete failing input is not reduced to a mere correspondence mismatch
+                only_prop = only_prop or impl[first].startswith("FAIL") or impl[first].startswith("panic")
                 shrunk = self.shrink(case_ops, hbin, exe, exe_args, only_prop=only_prop)
             isprop, det = self.classify_case(shrunk, hbin, exe, exe_args) if hbin and exe else (impl[first].startswith("FAIL") or impl[first].startswith("panic"), f"impl: {impl[first]} | model: {model[first]}")
             self.problems.append(Problem("property" if isprop else "correspondence",
@@ -371,8 +374,9 @@ class Check:
                 return False, f"line {i}: impl: {a} | model: {b}"
         return False, "not reproducible on re-run"
 
-    def shrink(self, case_ops, hbin, exe, exe_args, budget=150, only_prop=False):
+    def shrink(self, case_ops, hbin, exe, exe_args, budget=150, only_prop=False, want_prop=False):
         """ddmin over op lines (each candidate re-executed on implementation and model from a fresh state)"""
+        only_prop = only_prop or want_prop
         cur = list(case_ops)
         if not self._fails(cur, hbin, exe, exe_args, only_prop):
             return cur
